@@ -195,6 +195,7 @@ type Visit struct {
 type CbPlan struct {
 	FailAt int `json:"fail_at"` // visit index at which the callback fails / the consumer breaks; -1 never
 	ErrVariant int `json:"err_variant"`
+	Sticky     bool `json:"sticky"` // every visit from FailAt on fails (a callback that keeps failing)
 }
 
 var noCbFault = CbPlan{FailAt: -1}
@@ -245,7 +246,7 @@ func (cb *simCallback) fn(wn *gtree.WalkerNode) error {
 	if cb.Fired {
 		cb.after++
 	}
-	if cb.plan.FailAt >= 0 && idx == cb.plan.FailAt {
+	if cb.plan.FailAt >= 0 && (idx == cb.plan.FailAt || (cb.plan.Sticky && idx > cb.plan.FailAt)) {
 		cb.Fired = true
 		return cb.Err
 	}
